@@ -1,87 +1,71 @@
 import MxV.Model.Values
 /-! # Serialize — CPython 3.12 `xml.etree.ElementTree`: `_escape_cdata`, `_escape_attrib`,
 `indent(space="  ", level=L)` as the library calls it, `tostring(encoding='unicode')` with
-short empty elements; and a reader for character data / attribute values (entity and character
-reference expansion) used to state the escaping round trip. -/
+short empty elements. Everything is over `List Char` (structural recursion; the theorems of
+`Props/C16.lean` and `Model/XmlRoundTrip.lean` follow the same recursion); `toString` packs the
+result into a `String` for the driver. -/
 
 namespace Serialize
 
-def replaceChar (f : Char → Option String) (s : String) : String :=
-  String.join (s.toList.map fun c => match f c with
-    | some r => r
-    | none => String.singleton c)
-
 /-- `_escape_cdata` -/
-def escText (s : String) : String :=
-  replaceChar (fun c => if c == '&' then some "&amp;" else if c == '<' then some "&lt;"
-    else if c == '>' then some "&gt;" else none) s
+def escT : List Char → List Char
+  | [] => []
+  | c :: r =>
+    (if c == '&' then "&amp;".toList else if c == '<' then "&lt;".toList else if c == '>' then "&gt;".toList
+     else [c]) ++ escT r
 
 /-- `_escape_attrib` -/
-def escAttr (s : String) : String :=
-  replaceChar (fun c => if c == '&' then some "&amp;" else if c == '<' then some "&lt;"
-    else if c == '>' then some "&gt;" else if c == '"' then some "&quot;"
-    else if c == '\r' then some "&#13;" else if c == '\n' then some "&#10;"
-    else if c == '\t' then some "&#09;" else none) s
+def escA : List Char → List Char
+  | [] => []
+  | c :: r =>
+    (if c == '&' then "&amp;".toList else if c == '<' then "&lt;".toList else if c == '>' then "&gt;".toList
+     else if c == '"' then "&quot;".toList else if c == '\r' then "&#13;".toList
+     else if c == '\n' then "&#10;".toList else if c == '\t' then "&#09;".toList else [c]) ++ escA r
+
+def escText (s : String) : String := String.ofList (escT s.toList)
+def escAttr (s : String) : String := String.ofList (escA s.toList)
 
 structure XNode where
-  name : String
-  attrs : List (String × String)      -- already `str()`-rendered values, dict order
-  text : Option String
+  name : List Char
+  attrs : List (List Char × List Char)      -- already `str()`-rendered values, dict order
+  text : Option (List Char)
   children : List XNode
   deriving Inhabited
 
-def ind (k : Nat) : String := "\n" ++ String.join (List.replicate k "  ")
+/-- a line break and `k` levels of two blanks -/
+def indL (k : Nat) : List Char := '\n' :: List.replicate (2 * k) ' '
 
-def isBlank (s : String) : Bool := s.toList.all Values.pyIsSpace
+def isBlankL (s : List Char) : Bool := s.all Values.pyIsSpace
 
-def attrsStr (a : List (String × String)) : String :=
-  String.join (a.map fun (k, v) => " " ++ k ++ "=\"" ++ escAttr v ++ "\"")
+def attrsL : List (List Char × List Char) → List Char
+  | [] => []
+  | (k, v) :: r => ' ' :: k ++ '=' :: '"' :: escA v ++ '"' :: attrsL r
 
-/-- `tostring` of the tree after `indent(level = base)`; `d` is the depth below the serialised root -/
-partial def render (base : Nat) (d : Nat) (n : XNode) : String :=
-  let opn := "<" ++ n.name ++ attrsStr n.attrs
-  match n.children with
-  | [] =>
-    (match n.text with
-      | some t => if t.isEmpty then opn ++ " />" else opn ++ ">" ++ escText t ++ "</" ++ n.name ++ ">"
-      | none => opn ++ " />")
-  | cs =>
-    let childInd := ind (base + d + 1)
-    let txt := match n.text with
-      | some t => if isBlank t then childInd else escText t
-      | none => childInd
-    let last := cs.length - 1
-    let parts := cs.zipIdx.map fun (c, i) =>
-      render base (d + 1) c ++ (if i == last then ind (base + d) else childInd)
-    opn ++ ">" ++ txt ++ String.join parts ++ "</" ++ n.name ++ ">"
+-- `tostring` of the tree after `indent(level = base)`; `d` is the depth below the serialised root
+mutual
+def renderL (base : Nat) (d : Nat) : XNode → List Char
+  | ⟨name, attrs, text, children⟩ =>
+    match children with
+    | [] =>
+      (match text with
+        | some t =>
+          if t.isEmpty then '<' :: name ++ attrsL attrs ++ [' ', '/', '>']
+          else '<' :: name ++ attrsL attrs ++ '>' :: escT t ++ '<' :: '/' :: name ++ ['>']
+        | none => '<' :: name ++ attrsL attrs ++ [' ', '/', '>'])
+    | c :: cs =>
+      '<' :: name ++ attrsL attrs ++ '>' ::
+        (match text with
+          | some t => if isBlankL t then indL (base + d + 1) else escT t
+          | none => indL (base + d + 1)) ++
+        renderKidsL base d (c :: cs) ++ '<' :: '/' :: name ++ ['>']
+/-- the children, each followed by its tail: the next child's indentation, or the parent's for the last one -/
+def renderKidsL (base : Nat) (d : Nat) : List XNode → List Char
+  | [] => []
+  | [c] => renderL base (d + 1) c ++ indL (base + d)
+  | c :: c' :: r => renderL base (d + 1) c ++ indL (base + d + 1) ++ renderKidsL base d (c' :: r)
+end
 
 /-- `XMLElement.to_string()` of a node whose tree level is `level` -/
-def toString (level : Nat) (n : XNode) : String := render level 0 n ++ "\n"
-
-/-! ### reading back (what a conforming XML parser recovers) -/
-/-- expand the five predefined entities and decimal character references in character data or an
-    attribute value; unknown references are kept verbatim -/
-def unescape (s : String) : String :=
-  let rec go (l : List Char) (fuel : Nat) (acc : List Char) : List Char :=
-    match fuel with
-    | 0 => acc.reverse
-    | fuel + 1 =>
-      match l with
-      | [] => acc.reverse
-      | '&' :: r =>
-        let name := r.takeWhile (· != ';')
-        let rest := (r.dropWhile (· != ';')).drop 1
-        let rep : Option (List Char) :=
-          if name == "amp".toList then some ['&'] else if name == "lt".toList then some ['<']
-          else if name == "gt".toList then some ['>'] else if name == "quot".toList then some ['"']
-          else if name == "apos".toList then some ['\'']
-          else match name with
-            | '#' :: ds => (String.ofList ds).toNat?.map fun n => [Char.ofNat n]
-            | _ => none
-        (match rep with
-          | some cs => go rest fuel (cs.reverse ++ acc)
-          | none => go r fuel ('&' :: acc))
-      | c :: r => go r fuel (c :: acc)
-  String.ofList (go s.toList (s.length + 1) [])
+def toString (level : Nat) (n : XNode) : String := String.ofList (renderL level 0 n ++ ['\n'])
 
 end Serialize
